@@ -51,7 +51,7 @@ def _join(parts):
     return out
 
 
-_UNQ_SRC = {"n": ",n", "s": ",s", "e": ",(n + 1)", "v": ",v"}
+_UNQ_SRC = {"n": ",n", "s": ",s", "e": ",(n + 1)", "v": ",(v.clone())"}
 _UNQ_TXT = {"n": "42", "s": '"str"', "e": "43", "v": "sym"}
 
 
@@ -319,6 +319,7 @@ def _show(j):
 
 def run(ctx):
     q = ctx.quick()
+    ctx.level = "translation_validation"
     mc = os.path.join(vlib.SPEC, "mc", "C09.tla")
     res = vlib.run_tlc(mc, cfg=os.path.join(vlib.SPEC, "mc", "C09.cfg" if q else "C09Deep.cfg"), workdir=ctx.path("tlc"), workers=10)
     if res.notes:
@@ -395,6 +396,7 @@ def _depth(p):
 
 
 def replay(ctx, case):
+    ctx.level = "translation_validation"
     progs = [{"p": case["p"], "src": case["src"], "text": case["text"]}]
     results, rejected = build_and_run(ctx, progs, "replay")
     judge(ctx, progs, results, rejected, "replay")
